@@ -148,6 +148,25 @@ def seeded_changes(prop: str) -> List[Dict[str, Any]]:
     return out
 
 
+def neutral_refactors() -> List[Dict[str, Any]]:
+    """behaviour-preserving refactors written by independent sub-agents (tests pass, differential check SAME):
+    /verif/seeded/neutral-*/{patch.diff, meta.json}; every check must stay silent on them"""
+    import json
+
+    root = os.path.join(os.path.dirname(os.path.dirname(os.path.abspath(__file__))), "seeded")
+    out = []
+    if not os.path.isdir(root):
+        return out
+    for sid in sorted(os.listdir(root)):
+        mp_ = os.path.join(root, sid, "meta.json")
+        pp = os.path.join(root, sid, "patch.diff")
+        if os.path.isfile(mp_) and os.path.isfile(pp):
+            meta = json.load(open(mp_))
+            if meta.get("kind") == "neutral":
+                out.append({"id": sid, "patch": pp, "meta": meta})
+    return out
+
+
 def _run_seeded(args):
     import subprocess
 
@@ -270,7 +289,37 @@ def run_selftest(prop: str, repo_root: str, base_res, seed: int = 0, jobs: int =
                     row["verdict"] = "MISSED"
                     broken.append("seeded change %s (breaks %s) is no longer reported" % (sc["id"], prop))
             seeded_rows.append(row)
+    # behaviour-preserving refactors: no new finding, no give-up
+    neutral_rows = []
+    n_ref = n_ref_ok = 0
+    if not only:
+        refs = neutral_refactors()
+        if jobs > 1 and len(refs) > 1:
+            with mp.get_context("fork").Pool(min(jobs, len(refs))) as pool:
+                routs = pool.map(_run_seeded, [(prop, repo_root, sc) for sc in refs], chunksize=1)
+        else:
+            routs = [_run_seeded((prop, repo_root, sc)) for sc in refs]
+        for sc, o in zip(refs, routs):
+            row = {"refactor": sc["id"], "status": o["status"], "files": sc["meta"].get("files", "")}
+            if o["status"] == "inapplicable":
+                row["why"] = o["why"]
+            elif o["status"] != "ran":
+                n_ref += 1
+                row["verdict"] = "GAVE UP"
+                broken.append("behaviour-preserving refactor %s: the analyser gave up / crashed: %s" % (sc["id"], o.get("why", "")[:200]))
+            else:
+                n_ref += 1
+                new = [k for k in map(tuple, o["keys"]) if k not in base]
+                if new:
+                    row["verdict"] = "FALSE ALARM"
+                    row["finding"] = new[:3]
+                    broken.append("behaviour-preserving refactor %s raised a false alarm: %s" % (sc["id"], new[:2]))
+                else:
+                    n_ref_ok += 1
+                    row["verdict"] = "silent"
+            neutral_rows.append(row)
     return {
+        "neutral_refactors": n_ref, "neutral_refactors_silent": n_ref_ok, "neutral_refactor_rows": neutral_rows,
         "catalogue": len(muts), "fault_mutants": n_fault, "fault_reported": n_fault_ok,
         "neutral_mutants": n_neutral, "neutral_silent": n_neutral_ok, "inapplicable": n_inapp,
         "seeded_changes": n_seed, "seeded_reported": n_seed_ok, "seeded_rows": seeded_rows,
@@ -295,9 +344,9 @@ def main(argv=None):
         print("%-8s %-60s %s %s" % (r["kind"], r["mutant"], r["status"], r.get("verdict", r.get("why", ""))))
         if r.get("finding") and "-v" in os.environ.get("G3DSA_FLAGS", ""):
             print("          ", r["finding"])
-    print("fault %d/%d  neutral %d/%d  inapplicable %d  (%.1fs)" % (
+    print("fault %d/%d  neutral %d/%d  inapplicable %d  seeded %d/%d  refactors silent %d/%d  (%.1fs)" % (
         st["fault_reported"], st["fault_mutants"], st["neutral_silent"], st["neutral_mutants"], st["inapplicable"],
-        st["wall_s"]))
+        st["seeded_reported"], st["seeded_changes"], st["neutral_refactors_silent"], st["neutral_refactors"], st["wall_s"]))
     for b in st["broken"]:
         print("BROKEN:", b)
     return 2 if st["broken"] else 0
